@@ -538,7 +538,7 @@ def _folded_site(prog, st, env, got):
     """Second explanation test, for programs that cannot be rebuilt with raw nodes (a bool next
     to the site makes the raw expression refuse it): the tree's value equals the plain
     computation with that ONE class of sites folded on numbers the way the finding folds it."""
-    if got[0] != "v":
+    if got[0] not in ("v", "exc"):
         return None
     for fid, opname in ((KF_FLOORDIV1, "//"), (KF_MOD1, "%"), (KF_ZEROPOW, "**")):
         raw = frozenset(pth for pth, o in st if o == opname)
@@ -549,9 +549,13 @@ def _folded_site(prog, st, env, got):
                 w = num(prog, env, exact=exact, fold=raw)
             except RecursionError:
                 raise
-            except Exception:  # noqa: BLE001
+            except Exception as ex:  # noqa: BLE001
+                # (x % 1 folded to 0 next to `+ False`, then `... % 0`: the tree raises what the
+                #  plain computation raises once the site is folded the way the finding folds it)
+                if got[0] == "exc" and type(ex).__name__ == got[1]:
+                    return fid
                 continue
-            if refsem.values_equal(got[1], w):
+            if got[0] == "v" and refsem.values_equal(got[1], w):
                 return fid
     return None
 
@@ -788,6 +792,52 @@ def _kinds_finding(op, c, side, xv, want):
     return None
 
 
+@check("C03.registry")
+def c_registry(ctx, case):
+    """'over a mix of expressions and numbers': which classes count as numbers is what the public
+    registry says NOW.  A refused operation (the operand's class is not registered yet), then a
+    registration -- of the class itself or of a base / abstract class of it --, then the same
+    operation: it builds the tree of the plain computation; after unregistering it is refused
+    again."""
+    op, side, reg = case
+    import numbers as abcs
+    from fractions import Fraction
+    f = BIN[op]
+    c = Fraction(3, 2)
+    regcls = {"exact": Fraction, "abstract": abcs.Rational, "abstract-real": abcs.Real}[reg]
+
+    def attempt():
+        return refsem.outcome(lambda: f(X, c) if side == "left" else f(c, X))
+    ctx.case(None)
+    ctx.count("registry_histories")
+    first = attempt()       # (refused for most operators; not a promise of the statement)
+    ctx.count("registry_first_attempt:" + first[0])
+    p.register_constant_class(regcls)
+    try:
+        second = attempt()
+        if second[0] != "v":
+            ctx.fail("C03.registry", case, f"refused-after-registration:{reg}",
+                     f"x {op} Fraction(3, 2) [{side}]: refused ({first[1]}), then "
+                     f"register_constant_class({regcls.__name__}), then the same operation is "
+                     f"still refused ({second[1]})")
+        else:
+            for xv in (2, F(1, 3), -3):
+                want = refsem.outcome(lambda: f(xv, c) if side == "left" else f(c, xv))
+                got = refsem.outcome(lambda: refsem.ev(second[1], {"x": xv}))
+                # (Fraction ** x turns ITSELF into a float before pymbolic sees it)
+                if want[0] == "v" and (got[0] != "v" or not refsem.values_equal(got[1], want[1])):
+                    ctx.fail("C03.registry", case, f"value-after-registration:{op}",
+                             f"x {op} Fraction(3, 2) built {second[1]}; at x={xv}: {short(got)} "
+                             f"vs plain {short(want)}")
+    finally:
+        p.unregister_constant_class(regcls)
+    third = attempt()
+    if third[0] != first[0]:
+        ctx.fail("C03.registry", case, "registration-outlives-unregistration",
+                 f"x {op} Fraction(3, 2): {short(first)} before registration, {short(third)} after "
+                 f"register + unregister of {regcls.__name__}")
+
+
 @check("C03.smart")
 def c_smart(ctx, case):
     """The construction helpers that stand for repeated operator application -- the builtin
@@ -864,6 +914,12 @@ def workload(ctx):
                 if op in ("**", "/", "//", "%", "*"):
                     ctx.run("C03.kinds", (op, c, side, True))
     ctx.set_exhaustive("(operator, constant kind, side) with the variable over 19 value kinds")
+    for op in ("+", "-", "*", "/", "**", "//", "%"):
+        for side in ("left", "right"):
+            for reg in ("exact", "abstract", "abstract-real"):
+                if ctx.mine("registry"):
+                    ctx.case(("registry", op, side, reg), True, n=0)
+                    ctx.run("C03.registry", (op, side, reg))
     # scale: construction helpers and operator chains over 1 .. 130 operands
     for n in [1, 2, 3, 5, 8, *scale.WIDTHS]:
         for kind in ("linear_combination", "sum()", "flattened_sum", "flattened_product",
@@ -973,6 +1029,7 @@ def workload(ctx):
             ctx.sample("random-program", show(prog))
         ctx.run("C03.program", (prog, ctx.pick(12, 30)))
     ctx.floor("exhaustive_triples", 12 * 200)
+    ctx.floor("registry_histories", 30)
     ctx.floor("kind_evaluations", 10000)
     ctx.floor("smart_constructor_values", 500)
     ctx.floor("long_operator_chains", 100)
